@@ -46,23 +46,42 @@ class Pkg:
             self.np = _np
 
     def arr(self, values, dtype=None, shape=None):
-        """Build an ndarray (proxy or real) from a flat list of element values."""
-        if shape == () or shape is None and not isinstance(values, (list, tuple)):
-            v = values[0] if isinstance(values, (list, tuple)) else values
-            a = self.np.array(v, dtype=dtype) if dtype is not None else self.np.array(v)
-            return a
-        if dtype is object or (dtype is not None and _np.dtype(dtype).kind == 'O'):
-            if self.symbolic:
-                a = A.new_like((len(values),), list(values), A.OBJ)
-            else:
-                a = _np.empty(len(values), dtype=object)
-                for i, v in enumerate(values):
-                    a[i] = v
+        """Build an ndarray (proxy or real) of the given dtype/shape from a flat list of element values.
+        Harness-side construction of inputs: elements must already be representable in `dtype`."""
+        if not isinstance(values, (list, tuple)):
+            values = [values]
+        values = list(values)
+        if shape is None:
+            shape = (len(values),)
+        shape = tuple(shape)
+        isobj = dtype is object or (dtype is not None and _np.dtype(dtype).kind == 'O')
+        if self.symbolic:
+            if dtype is None:
+                a = A.array(values)
+                return a.reshape(shape) if a.shape != shape else a
+            dt = A.OBJ if isobj else _np.dtype(dtype)
+            el = []
+            for v in values:
+                if dt.kind == 'f':
+                    if isinstance(v, SNum) and v.isint:
+                        v = SNum.float_of_intterm(v.t, 0)
+                    elif isinstance(v, (bool, int)):
+                        v = float(v)
+                elif dt.kind in 'iu' and isinstance(v, bool):
+                    v = int(v)
+                el.append(v)
+            return A.new_like(shape, el, dt)
+        if isobj:
+            a = _np.empty(len(values), dtype=object)
+            for i, v in enumerate(values):
+                a[i] = v
         else:
-            a = self.np.array(list(values), dtype=dtype) if dtype is not None else self.np.array(list(values))
-        if shape is not None and tuple(shape) != tuple(a.shape):
-            a = a.reshape(shape)
-        return a
+            a = _np.array(values, dtype=dtype) if dtype is not None else _np.array(values)
+        return a.reshape(shape)
+
+    def npscalar(self, v, dtype):
+        """a NumPy scalar of the given dtype"""
+        return self.arr([v], dtype=dtype, shape=())[()]
 
 
 _PKGS = None
